@@ -367,6 +367,7 @@ func runC03Sites(w *World, r *Report) {
 	ruleFastOrder(w, r, l, gets, opCalls, kindsOfCurt, k)
 	ruleCondJump(w, r, l, opCalls, kindsOfCurt, k)
 	ruleScJump(w, r, l)
+	ruleScMust(w, r, l)
 }
 
 func ruleFastOrder(w *World, r *Report, l *evalLoop, gets map[string][]*ssa.Call, opCalls []*ssa.Call, kindsOfCurt func(*ssa.BasicBlock) map[int64]bool, k nodeKinds) {
@@ -712,7 +713,7 @@ func ruleScJump(w *World, r *Report, l *evalLoop) {
 var _ = sort.Strings
 var _ = strings.Join
 
-var c03Witnesses = append(nodeFreshWitnesses, []Witness{
+var c03Witnesses = append(append(append([]Witness{}, nodeFreshWitnesses...), scMustWitnesses...), []Witness{
 	{Name: "prefetch-all-variables", Rule: "R-CALLSITES", Edits: []Edit{
 		{File: "engine.go", Old: "	for i := int16(0); i < size; i++ {\n		curt = nodes[i]\n		switch curt.flag & nodeTypeMask {\n		case fastOperator:\n			i++\n			child := nodes[i]", New: "	for _, n := range nodes {\n		if n.flag&nodeTypeMask == variable {\n			if _, err = ctx.Get(n.varKey, n.value.(string)); err != nil {\n				return nil, err\n			}\n		}\n	}\n	for i := int16(0); i < size; i++ {\n		curt = nodes[i]\n		switch curt.flag & nodeTypeMask {\n		case fastOperator:\n			i++\n			child := nodes[i]"}}},
 	{Name: "fetch-constant-child", Rule: "R-CALLSITES", Edits: []Edit{
